@@ -133,7 +133,25 @@ namespace net
           z.add(f_n(F::IFF, {f_lit(ret), meaning}));
         }
         else
+        {
+          // "when true, it excludes no assignment that satisfies the constraint": a literal handed out for one cardinality
+          // constraint and now handed out again for another one forces both when true, so the two constraints have to
+          // agree on every assignment the rest of the network allows
+          for (auto &old : card_meanings[variable(ret)])
+            if (old.first == sign(ret) && variable(ret) != smt::FALSE_var) // (the constants are not "handed out")
+            {
+              std::vector<z3::expr> q;
+              {
+                Suspend sp;
+                q.push_back((z.zf(old.second) && !z.zf(meaning)) || (!z.zf(old.second) && z.zf(meaning)));
+              }
+              cnt.inc("n8.card_shared_checks");
+              if (z.check_with(q) == 1)
+                viol(O_N8_BOOL, "N8", "N8.card.shared_literal_strengthened", "the literal " + lstr(ret) + " was returned for " + f_text(old.second) + " and is returned again for " + f_text(meaning) + ": when true it forces both, hence excludes assignments that satisfy one of them");
+            }
           add_fact(f_n(F::IMP, {f_lit(ret), meaning}));
+        }
+        card_meanings[variable(ret)].push_back({sign(ret), meaning});
       }
     }
     Construct c;
